@@ -205,8 +205,8 @@ PROPS["C16"] = {
     "scenarios": {"fork": {"quick": 48000, "quick_time": 150, "thorough": 4000000, "thorough_time": 900}},
     "rule": "one evaluation = one seeded simulated execution containing one REAL fork(): the forking thread runs a generated prefix (call_rcu on default / per-thread / per-CPU helpers incl. RT ones, read sections, synchronize_rcu, rcu_barrier, "
             "an AUTO_RESIZE hash table with queued resize work), forks at a seed-chosen position bracketed by call_rcu_before_fork / [bp: urcu_bp_before_fork] ... and the matching after_fork handlers, with helper threads sleeping, polling or mid-batch; "
-            "bp additionally with 0-3 other reader threads registering, inside sections or exiting at fork time. The child (only the forking thread exists; simulated helper threads are gone, their mutexes/futexes inherited as they were) immediately runs a read section, "
-            "synchronize_rcu(), call_rcu()+rcu_barrier(), builds/resizes/destroys a resizable hash table; the parent continues and runs rcu_barrier(). Oracles per process: termination (deadlock detector + bounded progress), "
+            "bp additionally with 0-3 other reader threads registering, inside sections or exiting at fork time; optionally another application thread that owns and destroys a call_rcu helper, and another one (never a reader) that creates the process's first AUTO_RESIZE table (work queue, worker, atfork registration) around fork time. The child (only the forking thread exists; simulated helper threads are gone, their mutexes/futexes inherited as they were) immediately runs a read section, "
+            "synchronize_rcu(), call_rcu()+rcu_barrier(), builds/resizes/destroys a resizable hash table and waits until the resize worker has released the destroyed table (the deferred teardown must run in the child too); the parent continues and runs rcu_barrier(). Oracles per process: termination (deadlock detector + bounded progress), "
             "every callback queued before the fork runs exactly once in the parent and exactly once in the child, C01 interval oracle (sections of vanished threads are over in the child), tracked-arena use-after-free. "
             "Non-trivial = the fork happened with both processes completing; distinct = distinct event-log fingerprints.",
     "assumptions": COMMON_ASSUME + ["handler order used: call_rcu_before_fork, urcu_bp_before_fork, fork, urcu_bp_after_fork_*, call_rcu_after_fork_* (the only order that cannot self-deadlock: helpers need the bp locks to reach their pause point)",
